@@ -606,3 +606,7 @@ PROPS["C08"]["claim"] += (" END TO END: generated_{message,v1,v2,aes,rakp1}_roun
 PROPS["C06"]["proofs"] = PROPS["C06"]["proofs"] + ["Bmc.Proofs.EndToEnd.RequestsC06"]
 PROPS["C06"]["claim"] += (" END TO END: generated_*_request (Proofs/EndToEnd/RequestsC06.lean; 16 theorems over the 14 request layers) — each SerializeTo AS TRANSLATED ON THIS RUN, "
                           "over any stale buffer, produces bytes the independent reference parser reads as exactly the caller's fields, for all values fitting the wire width.")
+PROPS["C16"]["proofs"] = PROPS["C16"]["proofs"] + ["Bmc.Proofs.EndToEnd.EnumC16"]
+PROPS["C16"]["claim"] += (" END TO END: generated_RetrieveSupportedCipherSuites_complete, generated_getEntityInstances_pages (Proofs/EndToEnd/EnumC16.lean) — the paging loops AS "
+                          "TRANSLATED ON THIS RUN return every entry / record ID of any conforming BMC, in order, asking for each page exactly once (hypotheses on the BMC "
+                          "restricted by congruence lemmas to the indices the loops can ask for, and shown satisfiable).")
